@@ -29,7 +29,7 @@ RULE = ("embedded: ytk, ptk, cidar, ecoflex, plant - every item (exhaustive, 362
         " Second session: files under a supported extension in another letter case (optional keys: listed or not, but coherent), file names of present stems as absent keys, Item.record read for every item, directory members judged against the files written, twin directories with the same file names, a cassette label repeated on its feature.")
 ASSUMPTIONS = ["directory entries that are typed GenBank plasmids have pairwise distinct stems", "the eLabFTW (network) registry is out of scope"]
 FLOORS = {"c20_regrown_members": 10, "c20_aborted_loads": 4, "c20_items_checked": 400, "c20_absent_keys_checked": 300, "c20_directories": 40, "c20_combinations": 30, "c20_shared_id_checks": 20, "c20_embedded_registries": 5}
-MUST_REACH = ["EmbeddedRegistry.__iter__", "EmbeddedRegistry.__len__", "FilesystemRegistry.__getitem__", "CombinedRegistry.add_registry", "find_resistance"]
+MUST_REACH = ["EmbeddedRegistry.__iter__", "EmbeddedRegistry.__len__", "FilesystemRegistry.__getitem__", "CombinedRegistry.add_registry"]
 NEEDS_REGISTRIES = True
 BUDGET_S = {"quick": 900, "thorough": 7200}
 ANTIBIOTIC = {"KanR": "Kanamycin", "KnR": "Kanamycin", "CamR": "Chloramphenicol", "CmR": "Chloramphenicol",
